@@ -8,6 +8,7 @@ package astisub
 // Add-only; never compiled without the tag.
 
 import (
+	"io"
 	"math/bits"
 	"sort"
 	"time"
@@ -187,3 +188,7 @@ func VerifTeletextHamming2418(b0, b1, b2 uint8) int {
 	}
 	return -1
 }
+
+// VerifTeletextFullReader exposes the wrapper ReadFromTeletext puts around the caller's reader before handing it to the
+// transport stream demuxer
+func VerifTeletextFullReader(r io.Reader) io.Reader { return newTeletextFullReader(r) }
